@@ -1,2 +1,46 @@
+import PelProofs.JsonAlign
+import PelProofs.JsonParse
+/-
+  C06 — The printed JSON parses back to exactly the decoded document.
+  The tool prints `prettyPrint n (json.dumps(doc, indent=4))` (n = 34 for a PEL, 29 for a list/summary).
+-/
 namespace Pel.C06
+
+/-- ★ The aligner changes the dumped text in exactly one way: extra spaces between the colon that follows a
+    COMPLETE object key and the value (`aText` is `dumps` with `alignGap` after each member's colon).
+    Holds for every document, whatever characters keys and strings contain. -/
+theorem aligned_is_structural (n : Nat) (d : J) : prettyPrint n (dumps d) = aText n d 0 :=
+  prettyPrint_dumps n d
+
+/-- ★ The escape-aware key scan stops at the closing quote of the complete key: quotes, colons, braces and
+    backslashes inside the key are skipped. -/
+theorem key_scan_complete (k rest : Text) (i : Nat) :
+    keyScan (k.flatMap escChar ++ 34 :: 58 :: rest) i = some (i + (k.flatMap escChar).length) :=
+  keyScan_rendered k rest i
+
+/-- ★ A string that is a list element (not followed by a colon) is never aligned, whatever it contains. -/
+theorem string_item_untouched (t rest : Text) (i : Nat) (h : rest.head? ≠ some 58) :
+    keyScan (t.flatMap escChar ++ 34 :: rest) i = none :=
+  keyScan_item t rest i h
+
+/-- ★ The printed text parses back to exactly the decoded document (for 34, 29 or any other column). -/
+theorem printed_parses_back (n : Nat) (d : J) (h : d.wf = true) : loads (prettyPrint n (dumps d)) = .ok d := by
+  rw [prettyPrint_dumps]; exact loads_aText n d h
+
+/-- the un-aligned dump parses back as well -/
+theorem loads_dumps (d : J) (h : d.wf = true) : loads (aText 0 d 0) = .ok d := loads_aText 0 d h
+
+/-- ★ the `--all-pels` framing (`[`, documents separated by `,`, `]`) parses back to the list of the documents -/
+theorem list_parses_back (n : Nat) (ds : List J) (h : ∀ d ∈ ds, d.wf = true) :
+    loads (listFraming (ds.map (fun d => prettyPrint n (dumps d)))) = .ok (.arr ds) := by
+  have : ds.map (fun d => prettyPrint n (dumps d)) = ds.map (fun d => aText n d 0) := by
+    apply List.map_congr_left; intro d _; exact prettyPrint_dumps n d
+  rw [this]; exact loads_listFraming n ds h
+
+/-! Non-vacuity and the witnesses of the repaired defect: a list element `world "x": y` and a key `a":b`. -/
+example : (J.obj [(s "A", .arr [.str (s "world \"x\": y")]), (s "a\":b", .num 1), (s "k\\", .num 2)]).wf = true := by decide
+example : loads (prettyPrint 34 (dumps (J.obj [(s "A", .arr [.str (s "world \"x\": y")]), (s "a\":b", .num 1)]))) =
+    .ok (J.obj [(s "A", .arr [.str (s "world \"x\": y")]), (s "a\":b", .num 1)]) :=
+  printed_parses_back 34 _ (by decide)
+
 end Pel.C06
